@@ -230,8 +230,15 @@ impl Z for Ng {
     }
 }
 
+/// A zeroed stream as a C caller would prepare it (zalloc/zfree/opaque = NULL).
+/// NOT `z_stream::default()`: that pre-installs zlib-rs's Rust-allocator callbacks, and a stream carrying
+/// those must not be handed to zlib-ng (its zfree cannot release them: 200 KiB leaked per stream).
 pub fn zs() -> z_stream {
-    z_stream::default()
+    let mut s = z_stream::default();
+    s.zalloc = None;
+    s.zfree = None;
+    s.opaque = core::ptr::null_mut();
+    s
 }
 
 pub const Z_OK: c_int = 0;
